@@ -211,18 +211,49 @@ func c14R4(c *kit.Ctx, cm *c14Model, r4 *kit.Rule) {
 		o := r4.Ob(f, nil, ff.name+" reads the start only", "the filter reads no other field of a window than its start, and decides each window by that window's own start (no value derived from another window's field meets a filter value in a branch condition)")
 		nStart := 0
 		var other []string
-		ast.Inspect(f.Body, func(n ast.Node) bool {
-			if sel, ok := n.(*ast.SelectorExpr); ok {
-				if _, fv, ok := kit.FieldSel(info, sel); ok && (fv == cm.trF[0] || fv == cm.trF[1]) {
-					if fv == startF {
-						nStart++
-					} else {
-						other = append(other, fmt.Sprintf("`%s` at %s", f.Str(sel), f.At(sel)))
-					}
+		// the filter itself and the same-package helpers it hands a window to
+		bodies := []*kit.Func{f}
+		for _, call := range f.AllCalls(true) {
+			h := f.CalleeFunc(call)
+			if h == nil || h.Body == nil || h == f || h.Pkg != f.Pkg {
+				continue
+			}
+			gets := false
+			for _, a := range call.Args {
+				if cm.m.isElemOf(f, a, cm.tr) {
+					gets = true
 				}
 			}
-			return true
-		})
+			if sel, ok := ast.Unparen(call.Fun).(*ast.SelectorExpr); ok {
+				if _, isMethod := info.Selections[sel]; isMethod && cm.m.isElemOf(f, sel.X, cm.tr) {
+					gets = true
+				}
+			}
+			if gets {
+				dup := false
+				for _, b := range bodies {
+					dup = dup || b == h
+				}
+				if !dup {
+					bodies = append(bodies, h)
+				}
+			}
+		}
+		for _, b := range bodies {
+			b := b
+			ast.Inspect(b.Body, func(n ast.Node) bool {
+				if sel, ok := n.(*ast.SelectorExpr); ok {
+					if _, fv, ok := kit.FieldSel(info, sel); ok && (fv == cm.trF[0] || fv == cm.trF[1]) {
+						if fv == startF {
+							nStart++
+						} else {
+							other = append(other, fmt.Sprintf("`%s` at %s", b.Str(sel), b.At(sel)))
+						}
+					}
+				}
+				return true
+			})
+		}
 		fviol, fundec := c14ForeignReads(cm, f, f.Params()[0])
 		switch {
 		case len(other) > 0:
@@ -243,21 +274,21 @@ func c14R4(c *kit.Ctx, cm *c14Model, r4 *kit.Rule) {
 		info := f.Info()
 		wparam := f.Params()[0]
 		isWd := func(e ast.Expr) bool {
-			e = c14StripConv(info, e)
+			e = c14StripConv(info, cm.resolve(c14StripConv(info, e)))
 			if id, ok := e.(*ast.Ident); ok {
-				if rs := cm.m.rangesOf(f).val[kit.ObjOf(info, id)]; rs != nil && kit.ObjOf(info, rs.X) == types.Object(wparam) {
+				if rs := cm.rangeOfVal(f, kit.ObjOf(info, id)); rs != nil && kit.ObjOf(info, cm.resolve(rs.X)) == types.Object(wparam) {
 					return true
 				}
 			}
-			if ix, ok := e.(*ast.IndexExpr); ok && kit.ObjOf(info, ix.X) == types.Object(wparam) {
-				if rs := cm.m.rangesOf(f).key[kit.ObjOf(info, ix.Index)]; rs != nil && kit.ObjOf(info, rs.X) == types.Object(wparam) {
+			if ix, ok := e.(*ast.IndexExpr); ok && kit.ObjOf(info, cm.resolve(ix.X)) == types.Object(wparam) {
+				if rs := cm.rangeOfKey(f, kit.ObjOf(info, ix.Index)); rs != nil && kit.ObjOf(info, cm.resolve(rs.X)) == types.Object(wparam) {
 					return true
 				}
 			}
 			return false
 		}
 		isStartWeekday := func(e ast.Expr) bool {
-			call, ok := c14StripConv(info, e).(*ast.CallExpr)
+			call, ok := c14StripConv(info, cm.resolve(c14StripConv(info, e))).(*ast.CallExpr)
 			if !ok {
 				return false
 			}
@@ -290,11 +321,30 @@ func c14R4(c *kit.Ctx, cm *c14Model, r4 *kit.Rule) {
 		dparam := f.Params()[0]
 		groups := c14AtoiGroups(f)
 		img := c14DateImage(cm, f, dparam)
+		helperGroups := map[*kit.Func]map[int]int{}
 		groupOf := func(e ast.Expr) (int, bool) {
 			e = c14StripConv(info, e)
 			if g, has := groups[kit.ObjOf(info, e)]; has {
 				if _, isId := e.(*ast.Ident); isId {
 					return g, true
+				}
+			}
+			// year, month, day, err := parse(date): result i of a helper whose
+			// returns hand back Atoi(matches[k]) at position i
+			if id, isId := e.(*ast.Ident); isId {
+				if rhs, idx, _, n := c13SingleDef(f, kit.ObjOf(info, id)); n == 1 && rhs != nil {
+					if hc, isCall := ast.Unparen(rhs).(*ast.CallExpr); isCall {
+						if h := f.CalleeFunc(hc); h != nil && h.Body != nil && h != f {
+							hg, done := helperGroups[h]
+							if !done {
+								hg = c14ResultGroups(h)
+								helperGroups[h] = hg
+							}
+							if g, has := hg[idx]; has && g > 0 {
+								return g, true
+							}
+						}
+					}
 				}
 			}
 			if img != nil {
@@ -314,6 +364,19 @@ func c14R4(c *kit.Ctx, cm *c14Model, r4 *kit.Rule) {
 				if tv, has := info.Types[call.Fun]; has && tv.IsType() {
 					e = ast.Unparen(call.Args[0])
 				}
+			}
+			// y, m, d := <start>.Date()
+			if id, isId := e.(*ast.Ident); isId {
+				if rhs, idx, _, n := c13SingleDef(f, kit.ObjOf(info, id)); n == 1 && rhs != nil {
+					if dc, isCall := ast.Unparen(rhs).(*ast.CallExpr); isCall {
+						if name, rx, isT := c14TimeMethod(info, dc); isT && name == "Date" {
+							if fv, ok := c14WindowFieldOf(cm, f, rx); ok && fv == startF && idx < 3 {
+								return []string{"dY", "dM", "dD"}[idx]
+							}
+						}
+					}
+				}
+				return ""
 			}
 			call, ok := e.(*ast.CallExpr)
 			if !ok {
@@ -454,35 +517,78 @@ func c14FilterRun(c *kit.Ctx, cm *c14Model, flt *c14Filter, fparam *types.Var, r
 		}
 		return o
 	}
-	if len(outer) != 1 || len(inner) != 1 {
-		o.Undecided("expected one loop over the windows and one over the filter values, found %d / %d", len(outer), len(inner))
+	if len(outer) != 1 || len(inner) > 1 {
+		o.Undecided("expected one loop over the windows and at most one over the filter values in %s, found %d / %d", f.Name, len(outer), len(inner))
 		return o
 	}
-	var outerRS, innerRS *ast.RangeStmt
+	var outerRS *ast.RangeStmt
 	for rs := range outer {
 		outerRS = rs
 	}
-	for rs := range inner {
-		innerRS = rs
-	}
 	within := func(n ast.Node, rs *ast.RangeStmt) bool { return rs.Body.Pos() <= n.Pos() && n.End() <= rs.Body.End() }
-	if !within(innerRS, outerRS) {
-		o.Undecided("the loop over the filter values is not nested in the loop over the windows")
-		return o
+	for rs := range inner {
+		if !within(rs, outerRS) {
+			o.Undecided("the loop over the filter values is not nested in the loop over the windows")
+			return o
+		}
+	}
+	// the loop over the filter values may live in a helper that is evaluated
+	// inline: it is recognised when it is entered (its operand resolves to the
+	// filter parameter or to the list of parsed values)
+	innerLoops := map[*ast.RangeStmt]bool{}
+	isInner := func(rs *ast.RangeStmt) bool {
+		if inner[rs] {
+			return true
+		}
+		if flt.image != nil && rs == flt.image.loop {
+			return false
+		}
+		xo := kit.ObjOf(info, cm.resolve(rs.X))
+		return xo != nil && (xo == types.Object(fparam) || (flt.image != nil && xo == flt.image.list)) && rs.Pos() != outerRS.Pos()
 	}
 	isLenParam := func(e ast.Expr) bool {
 		call, ok := ast.Unparen(e).(*ast.CallExpr)
-		if !ok || len(call.Args) != 1 || kit.ObjOf(info, call.Args[0]) != types.Object(fparam) {
+		if !ok || len(call.Args) != 1 || kit.ObjOf(info, cm.resolve(call.Args[0])) != types.Object(fparam) {
 			return false
 		}
 		b, isB := kit.Callee(info, call).(*types.Builtin)
 		return isB && b.Name() == "len"
 	}
+	// values derived from a window's fields (for the "uninterpreted condition" test)
+	_, derived := c14Taint(f, func(x ast.Expr) bool {
+		if _, fv, ok := kit.FieldSel(info, x); ok && (fv == cm.trF[0] || fv == cm.trF[1]) {
+			return true
+		}
+		return false
+	})
 	var violations, undec []string
 	addV := func(format string, a ...any) { violations = append(violations, fmt.Sprintf(format, a...)) }
 	for _, empty := range []string{"T", "F"} {
 		st := &kit.Std{F: f}
 		bf := &kit.BoolFlow{Std: st}
+		restore := cm.m.follow(st)
+		st.ShouldInline = func(cf *kit.Func, call *ast.CallExpr) bool {
+			// helpers that receive the filter values or the window
+			touches := func(e ast.Expr) bool {
+				return ruMentions(e, func(x ast.Expr) bool {
+					if id, ok := x.(*ast.Ident); ok && kit.ObjOf(info, cm.resolve(id)) == types.Object(fparam) {
+						return true
+					}
+					return cm.m.isElemOf(f, x, cm.tr)
+				})
+			}
+			for _, a := range call.Args {
+				if touches(a) {
+					return true
+				}
+			}
+			if sel, ok := ast.Unparen(call.Fun).(*ast.SelectorExpr); ok {
+				if _, isMethod := info.Selections[sel]; isMethod && touches(sel.X) {
+					return true
+				}
+			}
+			return false
+		}
 		bf.Atom = func(e ast.Expr) (string, bool, bool) {
 			e = ast.Unparen(e)
 			if a, b, op, ok := kit.CmpAtom(e); ok {
@@ -552,8 +658,19 @@ func c14FilterRun(c *kit.Ctx, cm *c14Model, flt *c14Filter, fparam *types.Var, r
 			}
 			return s
 		}
+		curInner := func(s kit.S) *ast.RangeStmt {
+			for rs := range innerLoops {
+				if fmt.Sprint(rs.Pos()) == s.Get("itl") {
+					return rs
+				}
+			}
+			return nil
+		}
 		var appendTargets, storeSources []string
 		st.OnNode = func(n ast.Node, s kit.S) []kit.S {
+			if st.Cur() != f {
+				return []kit.S{s} // a helper's own statements
+			}
 			as, ok := n.(*ast.AssignStmt)
 			if !ok || len(as.Lhs) != len(as.Rhs) {
 				return []kit.S{s}
@@ -572,7 +689,7 @@ func c14FilterRun(c *kit.Ctx, cm *c14Model, flt *c14Filter, fparam *types.Var, r
 								continue
 							}
 							appendTargets = append(appendTargets, kit.VarID(tgt))
-							if within(as, innerRS) && s.Has("iti") {
+							if cur := curInner(s); cur != nil && within(as, cur) && s.Has("iti") {
 								switch classify(s) {
 								case "nomatch":
 									addV("witness: %s → the window is kept at %s in a pass where a compared component differs", flt.wit[0], f.At(as))
@@ -602,11 +719,12 @@ func c14FilterRun(c *kit.Ctx, cm *c14Model, flt *c14Filter, fparam *types.Var, r
 			if br.Kind != kit.BrRange {
 				return nil, nil, false
 			}
-			switch br.Range {
-			case innerRS:
+			switch {
+			case br.Range != outerRS && isInner(br.Range):
+				innerLoops[br.Range] = true
 				s = closeInner(s)
-				return []kit.S{s.Set("iti", "1")}, []kit.S{s.Set("icomplete", "T")}, true
-			case outerRS:
+				return []kit.S{s.Set("iti", "1").Set("itl", fmt.Sprint(br.Range.Pos()))}, []kit.S{s.Set("icomplete", "T")}, true
+			case br.Range == outerRS:
 				if !s.Has("ito") {
 					return []kit.S{s.Set("ito", "1")}, []kit.S{s}, true
 				}
@@ -631,24 +749,36 @@ func c14FilterRun(c *kit.Ctx, cm *c14Model, flt *c14Filter, fparam *types.Var, r
 			}
 			return nil, nil, false
 		}
-		corr := &ruCorr{f: f, pred: func(x ast.Expr) bool {
+		var corrPred func(x ast.Expr) bool
+		corrPred = func(x ast.Expr) bool {
 			if id, ok := x.(*ast.Ident); ok {
+				if r := cm.resolve(id); r != ast.Expr(id) {
+					return ruMentions(r, corrPred)
+				}
 				ob := kit.ObjOf(info, id)
 				if ob == types.Object(fparam) {
 					return true
 				}
-				if rs := cm.m.rangesOf(f).val[ob]; rs == innerRS {
+				if rs := cm.rangeOfVal(f, ob); rs != nil && innerLoops[rs] {
+					return true
+				}
+				if derived(id) {
 					return true
 				}
 			}
 			return cm.m.isElemOf(f, x, cm.tr)
-		}}
+		}
+		corr := &ruCorr{f: f, pred: corrPred}
 		corr.hook(st)
 		res := c.P.Graph(f).Run(kit.NewS().Set("a:empty", empty), bf.Client())
+		restore()
 		if res.Overflow {
 			c.Fatalf("%s: state space overflow", f.Name)
 		}
 		c.AddValuations(1)
+		if empty == "F" && len(innerLoops) == 0 {
+			undec = append(undec, "no loop over the filter values was entered (neither in the filter nor in a helper evaluated inline)")
+		}
 		if corr.any() {
 			undec = append(undec, "the filter branches on a condition over the window / filter value that the checker does not interpret: "+corr.String())
 		}
@@ -711,4 +841,89 @@ func c14StripConv(info *types.Info, e ast.Expr) ast.Expr {
 		}
 		e = call.Args[0]
 	}
+}
+
+// c14ResultGroups: for a helper, result position → group k when every return
+// statement hands back, at that position, either a constant (error paths) or
+// a variable defined only as strconv.Atoi(X[k]).
+func c14ResultGroups(h *kit.Func) map[int]int {
+	info := h.Info()
+	groups := c14AtoiGroups(h)
+	out := map[int]int{}
+	bad := map[int]bool{}
+	ast.Inspect(h.Body, func(n ast.Node) bool {
+		if _, isLit := n.(*ast.FuncLit); isLit {
+			return false
+		}
+		ret, ok := n.(*ast.ReturnStmt)
+		if !ok {
+			return true
+		}
+		if len(ret.Results) == 0 {
+			// naked return with named results: the named result variables themselves
+			if h.Type.Results != nil {
+				i := 0
+				for _, fl := range h.Type.Results.List {
+					for _, nm := range fl.Names {
+						if g, has := groups[info.Defs[nm]]; has {
+							if prev, seen := out[i]; seen && prev != g {
+								bad[i] = true
+							}
+							out[i] = g
+						}
+						i++
+					}
+				}
+			}
+			return true
+		}
+		for i, r := range ret.Results {
+			if tv, has := info.Types[r]; has && tv.Value != nil {
+				continue // constant on an error path
+			}
+			g, has := groups[kit.ObjOf(info, r)]
+			if _, isId := ast.Unparen(r).(*ast.Ident); !isId || !has {
+				if !kit.IsNilIdent(info, r) {
+					bad[i] = true
+				}
+				continue
+			}
+			if prev, seen := out[i]; seen && prev != g {
+				bad[i] = true
+			}
+			out[i] = g
+		}
+		return true
+	})
+	for i := range bad {
+		delete(out, i)
+	}
+	return out
+}
+
+// resolve maps a helper's parameter to its argument while helpers are
+// evaluated inline.
+func (cm *c14Model) resolve(e ast.Expr) ast.Expr {
+	if cm.m.res != nil {
+		return ast.Unparen(cm.m.res(ast.Unparen(e)))
+	}
+	return ast.Unparen(e)
+}
+
+func (cm *c14Model) rangeOfVal(f *kit.Func, o types.Object) *ast.RangeStmt {
+	for _, sc := range cm.m.scopes(f) {
+		if rs := cm.m.rangesOf(sc).val[o]; rs != nil {
+			return rs
+		}
+	}
+	return nil
+}
+
+func (cm *c14Model) rangeOfKey(f *kit.Func, o types.Object) *ast.RangeStmt {
+	for _, sc := range cm.m.scopes(f) {
+		if rs := cm.m.rangesOf(sc).key[o]; rs != nil {
+			return rs
+		}
+	}
+	return nil
 }
